@@ -138,6 +138,28 @@ CHECKS = {
             "with the effect it has on a fresh container.",
             "One known finding (release after a propagating error) is listed in known-findings.json.",
             "DESIGN.md#c12"),
+    "C13": ("model_checking",
+            "exhaustive enumeration of build graphs x load patterns x handle sets x ALL drop permutations, executed on the real heap API with poisoned arenas; every surviving object re-observed after every drop",
+            "All DAGs on 3 (quick) / 4 (thorough) modules x labellings of the edges with 7 load patterns (direct use, re-export, inside "
+            "containers/struct, captured by a def, host import_public_symbols, OwnedFrozen::add_to_heap + Module::set, function only; "
+            "<=2 distinct patterns) x handle variants (owned handle, mapped handles reaching into an EARLIER heap, clones, Globals built "
+            "from a handle, FrozenModule::from_globals, a module evaluated against those globals) x EVERY permutation of dropping the "
+            "objects, with allocation noise that recycles released chunks after each drop: after every drop each surviving module, "
+            "handle and Globals is re-observed (all exports encoded, functions called) and must equal its observation at creation. "
+            "Dropped arenas are overwritten (hook), so a missing heap reference is a crash or a wrong read.",
+            "Histories with more than 5/6 droppable objects permute only the newest 5/6. Cross-thread drops are covered by C20, not here.",
+            "DESIGN.md#c13"),
+    "C14": ("exploration",
+            "enumeration of a finite configuration set (hash seed x ASLR x allocation noise x thread x repetition) for every program; byte-identical-output differential; canaries prove the configurations differ",
+            "Programs printing order- and identity-bearing observations (dict/set/struct/dir() iteration after inserts and removals across "
+            "the 16-entry threshold, hash(), json, str/repr of functions/natives/types/records/enums/partial/bound methods, full error "
+            "texts with did-you-mean suggestions and call stacks, generated families) and modules with several static diagnostics "
+            "(typechecker errors, type map, lints) are run in one process per configuration and twice within it; configurations = 6 std "
+            "hash seeds (LD_PRELOAD getrandom shim) x ASLR on/off x 3 pre-allocation levels x {main, spawned, spawned-after-another-"
+            "evaluation} thread. All outputs must be byte-identical; canaries assert that HashMap order, addresses and threads differ.",
+            "The hash-seed space is not exhausted: the claim is 'all programs x these 48/108 configurations', a finite stand-in for "
+            "'any process'.",
+            "DESIGN.md#c14"),
     "C15": ("fault_enumeration",
             "exhaustive enumeration of every depth / tick count / cancellation position around every configured limit, judged against reference counts measured on unlimited runs",
             "Depth: 12 recursion shapes (direct, mutual, lambda, comprehension, sorted key=, map, filter, partial, struct field, "
@@ -159,6 +181,15 @@ CHECKS = {
             "denotes() is transcribed from docs/types.md. tuple[A, B] / tuple[A] spellings are not accepted by this "
             "implementation (fixed arity is written as a tuple of types), so they are not in the alphabet.",
             "DESIGN.md#c16"),
+    "C17": ("exploration",
+            "bounded-exhaustive module families: (A) binding forms x right-hand sides judged by a rendered-type membership oracle after evaluation, (B) well-typed-by-construction modules, (C) determinism differential on a generated corpus",
+            "A: every module of <=2 statements over 17 binding forms x 32 right-hand sides: each exported binding to which the checker "
+            "assigns a type other than Any, with no approximation flagged, must hold a value of that type after evaluation (19k judged "
+            "bindings in quick). B: modules well typed by construction over int/str/bool/list[int]/dict[str,int] with annotated defs, "
+            "returns, assignments and calls: zero diagnostics. C: several thousand generated (mostly ill-typed) modules: no crash, "
+            "identical diagnostics twice in-process and under a different std hash seed.",
+            "Rendered types are mapped to value classes by denotes() in py/checks/c17.py; renderings it does not know are counted, not judged.",
+            "DESIGN.md#c17"),
 }
 
 NOT_YET = {
